@@ -365,6 +365,12 @@ func signEvent(signingName string, keyID KeyID, privateKey ed25519.PrivateKey, e
 		return nil, err
 	}
 
+	// Only the new signature is wanted: the signatures that the event already
+	// carries are kept as they are (they are not covered by any signature).
+	if redactedJSON, err = sjson.DeleteBytes(redactedJSON, "signatures"); err != nil {
+		return nil, err
+	}
+
 	// Sign the JSON, this adds a "signatures" key to the redacted event.
 	// TODO: Make an internal version of SignJSON that returns just the signatures so that we don't have to parse it out of the JSON.
 	signedJSON, err := SignJSON(signingName, keyID, privateKey, redactedJSON)
@@ -373,19 +379,37 @@ func signEvent(signingName string, keyID KeyID, privateKey ed25519.PrivateKey, e
 	}
 
 	var signedEvent struct {
-		Signatures spec.RawJSON `json:"signatures"`
+		Signatures map[string]map[KeyID]spec.RawJSON `json:"signatures"`
 	}
 	if err := json.Unmarshal(signedJSON, &signedEvent); err != nil {
 		return nil, err
 	}
 
-	// Unmarshal the event JSON so that we can replace the signatures key.
+	// Unmarshal the event JSON so that we can add to the signatures key.
 	var event map[string]spec.RawJSON
 	if err := json.Unmarshal(eventJSON, &event); err != nil {
 		return nil, err
 	}
-
-	event["signatures"] = signedEvent.Signatures
+	signatures := map[string]map[KeyID]spec.RawJSON{}
+	if existing, ok := event["signatures"]; ok {
+		if err := json.Unmarshal(existing, &signatures); err != nil {
+			return nil, err
+		}
+		if signatures == nil {
+			signatures = map[string]map[KeyID]spec.RawJSON{}
+		}
+	}
+	for name, keys := range signedEvent.Signatures {
+		if signatures[name] == nil {
+			signatures[name] = map[KeyID]spec.RawJSON{}
+		}
+		for id, signature := range keys {
+			signatures[name][id] = signature
+		}
+	}
+	if event["signatures"], err = json.Marshal(signatures); err != nil {
+		return nil, err
+	}
 
 	return json.Marshal(event)
 }
